@@ -720,13 +720,25 @@ typedef struct {
 	size_t hlen;
 
 	/* The pad serves as destination for various operations. */
+#ifdef BR_VERIF
+	unsigned char verif_guard_pad0[16];
+#endif
 	unsigned char pad[256];
+#ifdef BR_VERIF
+	unsigned char verif_guard_pad1[16];
+#endif
 
 	/* Buffer for EE public key data. */
 	unsigned char ee_pkey_data[BR_X509_BUFSIZE_KEY];
+#ifdef BR_VERIF
+	unsigned char verif_guard_ee_pkey[16];
+#endif
 
 	/* Buffer for currently decoded public key. */
 	unsigned char pkey_data[BR_X509_BUFSIZE_KEY];
+#ifdef BR_VERIF
+	unsigned char verif_guard_pkey[16];
+#endif
 
 	/* Signature type: signer key type, offset to the hash
 	   function OID (in the T0 data block) and hash function
@@ -737,6 +749,9 @@ typedef struct {
 
 	/* Current/last certificate signature. */
 	unsigned char cert_sig[BR_X509_BUFSIZE_SIG];
+#ifdef BR_VERIF
+	unsigned char verif_guard_cert_sig[16];
+#endif
 	uint16_t cert_sig_len;
 
 	/* Minimum RSA key length (difference in bytes from 128). */
@@ -1053,6 +1068,9 @@ typedef struct {
 
 	/* The pad serves as destination for various operations. */
 	unsigned char pad[256];
+#ifdef BR_VERIF
+	unsigned char verif_guard_pad1[16];
+#endif
 
 	/* Flag set when decoding succeeds. */
 	unsigned char decoded;
@@ -1083,6 +1101,9 @@ typedef struct {
 
 	/* Buffer for decoded public key. */
 	unsigned char pkey_data[BR_X509_BUFSIZE_KEY];
+#ifdef BR_VERIF
+	unsigned char verif_guard_pkey[16];
+#endif
 
 	/* Type of key and hash function used in the certificate signature. */
 	unsigned char signer_key_type;
@@ -1259,6 +1280,9 @@ typedef struct {
 
 	/* The pad serves as destination for various operations. */
 	unsigned char pad[256];
+#ifdef BR_VERIF
+	unsigned char verif_guard_pad1[16];
+#endif
 
 	/* Decoded key type; 0 until decoding is complete. */
 	unsigned char key_type;
@@ -1267,6 +1291,9 @@ typedef struct {
 	   to accommodate all elements for a RSA-4096 private key (roughly
 	   five 2048-bit integers, possibly a bit more). */
 	unsigned char key_data[3 * BR_X509_BUFSIZE_SIG];
+#ifdef BR_VERIF
+	unsigned char verif_guard_key_data[16];
+#endif
 #endif
 } br_skey_decoder_context;
 
@@ -1406,6 +1433,9 @@ typedef struct {
 
 	/* The pad serves as destination for various operations. */
 	unsigned char pad[256];
+#ifdef BR_VERIF
+	unsigned char verif_guard_pad1[16];
+#endif
 
 	/* Decoded key type; 0 until decoding is complete. */
 	unsigned char key_type;
@@ -1414,6 +1444,9 @@ typedef struct {
 	   to accommodate all elements for a RSA-4096 private key (roughly
 	   five 2048-bit integers, possibly a bit more). */
 	unsigned char key_data[3 * BR_X509_BUFSIZE_SIG];
+#ifdef BR_VERIF
+	unsigned char verif_guard_key_data[16];
+#endif
 #endif
 } br_pkey_decoder_context;
 
